@@ -97,6 +97,8 @@ LIB: Dict[str, Dict[str, Any]] = {
                                  fn=lambda d, divisor: _div(d, divisor)),
     "FloatCollectionSumOperation": dict(kind="operation", params=[], inp="Coll", out="Float",
                                         fn=lambda xs: _must_float(sum(xs))),
+    "VInPlaceScaleOp": dict(kind="operation", params=[("k", 1.5)], inp="Float", out="Float", fn=lambda d, k: _mul(d, k)),
+    "VNoneDefaultProbe": dict(kind="probe", params=[("tag", None)], inp="Float", fn=lambda d, tag: {"tag": tag, "d": d}),
     "VCtxWriteOp": dict(kind="operation", params=[("w", NODEF)], inp="Float", out="Float", writes=["w_key"],
                         fn=None),
     "VUndeclaredWriteOp": dict(kind="operation", params=[], inp="Float", out="Float", fn=None),
@@ -110,6 +112,9 @@ LIB: Dict[str, Dict[str, Any]] = {
     "FloatCollectValueProbe": dict(kind="probe", params=[], inp="Float", fn=lambda d: d),
     "VEchoProbe": dict(kind="probe", params=[("p", NODEF), ("q", 5.0)], inp="Float",
                        fn=lambda d, p, q: {"p": p, "q": q, "d": d}),
+    # built-in utility components (semantiva.data_processors.data_dump / copy_data_probe): accept any data type
+    "DataDump": dict(kind="operation", params=[], inp="Any", out="NoData", fn=None),
+    "CopyDataProbe": dict(kind="probe", params=[], inp="Any", fn=None),
     "FloatDataSink": dict(kind="sink", params=[], inp="Float"),
     "FloatPayloadSink": dict(kind="sink", params=[], inp="Float"),
     "FloatMockDataSink": dict(kind="sink", params=[("path", NODEF)], inp="Float"),
@@ -118,7 +123,8 @@ LIB: Dict[str, Dict[str, Any]] = {
                           fn=lambda marker, value: value),
 }
 
-EXC_NAMES = {"value": "ValueError", "runtime": "RuntimeError", "keyboard": "KeyboardInterrupt", "abort": "VVerifAbort"}
+EXC_NAMES = {"value": "ValueError", "runtime": "RuntimeError", "keyboard": "KeyboardInterrupt", "abort": "VVerifAbort",
+             "value_empty": "ValueError", "keyboard_empty": "KeyboardInterrupt", "assert_empty": "AssertionError"}
 
 
 def _assert_float(value):
@@ -301,7 +307,7 @@ def run(case: Dict[str, Any]) -> Dict[str, Any]:
                 if want == "NoData" and have == "None":
                     data = dict(NODATA)
                     have = "NoData"
-                if want != have:
+                if want != have and not (want == "Any" and have != "None"):
                     raise MFail("TYPE", "TypeError", f"{want} != {have}")
             res = resolve(desc, node, ctx, writers)
             entry["params"] = {k: {"value": v[0], "source": v[1], "writer": v[2]} for k, v in res.items()}
@@ -327,6 +333,17 @@ def run(case: Dict[str, Any]) -> Dict[str, Any]:
 
 def _same(a: Any, b: Any) -> bool:
     return type(a) is type(b) and a == b
+
+
+def render(v: Any) -> str:
+    """str() of a context value as the framework renders it (data objects print as Class(value))."""
+    if isinstance(v, dict) and set(v) <= {"t", "v"} and "t" in v:
+        if v["t"] in ("NoDataType", "None"):
+            return "NoDataType" if v["t"] == "NoDataType" else "None"
+        if v["t"] == "FloatDataType":
+            return f"FloatDataType({v['v']})"
+        return f"{v['t']}([" + ", ".join(f"FloatDataType({x})" for x in v["v"]) + "])"
+    return str(v)
 
 
 def _elem_apply(name: str, base: Dict[str, Any], d: float, vals: Dict[str, Any], ctx: Dict[str, Any]) -> Any:
@@ -364,7 +381,7 @@ def _apply(desc, node, data, ctx, vals, files) -> Tuple[Dict[str, Any], bool]:
                     raise MFail("PROCESSOR", "KeyError", "delete key not in context")
                 del ctx[desc["key"]]
         else:
-            rendered = _leaf(lambda: desc["template"].format(**{k: str(vals[k]) for k, _ in desc["params"]}))
+            rendered = _leaf(lambda: desc["template"].format(**{k: render(vals[k]) for k, _ in desc["params"]}))
             ctx[desc["out"]] = rendered
         return data, False
     if sub == "sweep":
@@ -390,7 +407,14 @@ def _apply(desc, node, data, ctx, vals, files) -> Tuple[Dict[str, Any], bool]:
             path = vals["path"]
             if not isinstance(path, str):
                 raise MFail("PROCESSOR", "TypeError", "path")
+            if len(path.encode("utf-8")) > 255:
+                raise MFail("PROCESSOR", "OSError", "file name too long")
             files[path] = str(data["v"]) + "\n"
+        return data, False
+    if name == "DataDump":
+        return dict(NODATA), False
+    if name == "CopyDataProbe":
+        ctx[node["context_key"]] = copy.deepcopy(data)
         return data, False
     if kind == "operation":
         if sub == "slice":
